@@ -10,7 +10,10 @@ goyacc-generated parser and the compiler is NOT a theorem (a Lean model of that
 Go code is out of reach); it is covered by the search in harness/c08.go.
 -/
 import Martian.Lexer
+import Martian.Regex
 import Proofs.Lexer
+import Proofs.Regex
+import Proofs.LexerRegex
 import Gen.Facts
 
 namespace Props.C08
@@ -136,5 +139,80 @@ theorem lexer_progress (R : Rules) (isSkip : Nat → Bool) (hskip : isSkip INVAL
     ((nextToken R s).1 ≠ INVALID → 0 < (nextToken R s).2.length) ∧
     ∃ r, lex R isSkip (s.length + 1) s = some r :=
   ⟨nextToken_progress R s, lex_total R isSkip hskip _ s (by omega)⟩
+
+/-! ## The rules as REGULAR EXPRESSIONS: regex semantics, matcher, and the tie
+of the hand-written recognisers to the regex text found in tokenizer.go -/
+
+section regex
+open Martian.Regex hiding Bytes isWord
+open Martian.LexerRegex
+
+/-- The leftmost-first matcher is sound for every regex of the AST and every
+input: what it returns is a prefix of the input which the regex matches (in
+the denotational semantics `Matches`, anchors evaluated in context). -/
+theorem regex_matcher_sound (r : Re) (s w : Bytes) (h : pmatch r s = some w) :
+    ∃ post, s = w ++ post ∧ Matches r [] w post :=
+  pmatch_sound h
+
+/-- … and complete: it reports "no match" only when no prefix of the input
+matches (backtracking is exhaustive; the fuel of the star loop suffices;
+skipping empty iterations loses nothing). -/
+theorem regex_matcher_complete (r : Re) (s : Bytes) :
+    pmatch r s = none ↔ ¬ ∃ w post, s = w ++ post ∧ Matches r [] w post :=
+  pmatch_none_iff r s
+
+-- non-vacuity, and the leftmost-FIRST (not leftmost-longest) preference: `^(?:a|ab)` on "ab" is "a"
+example : (parse "^(?:a|ab)").map (fun r => pmatch r [0x61, 0x62]) = some (some [0x61]) ∧
+    (parse "^(?:ab|a)").map (fun r => pmatch r [0x61, 0x62]) = some (some [0x61, 0x62]) ∧
+    (parse "^a{2,3}\\b").map (fun r => pmatch r [0x61, 0x61, 0x61, 0x61]) = some none := by decide
+
+/-- Regenerated obligation: the regex SYNTAX parser, run on the integer rule's
+regex text as found in tokenizer.go now, yields the AST the proofs are about. -/
+theorem int_rule_parses : parse Gen.tokIntRegex = some intRe := by decide
+
+theorem float_rule_parses : parse Gen.tokFloatRegex = some floatRe := by decide
+
+/-- For EVERY input the hand-written integer recogniser returns exactly the
+prefix that the leftmost-first semantics of the parsed, regenerated regex of
+`tokIntRule` selects (`none` = no match).  A change of the regex in the Go
+source either changes `parse Gen.tokIntRegex` (this theorem breaks at
+`int_rule_parses`) or leaves the AST, hence the matched language, unchanged. -/
+theorem int_rule_is_regex (s : Bytes) :
+    (parse Gen.tokIntRegex).map (fun r => pmatch r s) = some (matchInt s) := by
+  rw [int_rule_parses]; exact congrArg some (pmatch_intRe s)
+
+/-- The same for the float rule (the repaired regex, `(?:` instead of `(:?`). -/
+theorem float_rule_is_regex (s : Bytes) :
+    (parse Gen.tokFloatRegex).map (fun r => pmatch r s) = some (matchFloat false s) := by
+  rw [float_rule_parses]; exact congrArg some (pmatch_floatRe s)
+
+example : (parse Gen.tokIntRegex).map (fun r => pmatch r [0x2D, 0x30, 0x37, 0x2C]) = some (some [0x2D, 0x30, 0x37]) ∧
+    (parse Gen.tokFloatRegex).map (fun r => pmatch r [0x31, 0x2E, 0x35, 0x65, 0x2D, 0x33, 0x5D])
+      = some (some [0x31, 0x2E, 0x35, 0x65, 0x2D, 0x33]) := by decide
+
+/-- Every text the float rule's regex admits is accepted by the syntax of
+`strconv.ParseFloat` (decimal literal: digits, optional fraction, optional
+exponent): the converter can refuse a NUM_FLOAT candidate only for being out
+of range — which `keywordToken` tests before it emits the token. -/
+theorem float_rule_admits_only_go_syntax (s t : Bytes)
+    (h : (parse Gen.tokFloatRegex).map (fun r => pmatch r s) = some (some t)) :
+    (goFloatSyntax t).isSome = true := by
+  rw [float_rule_is_regex] at h
+  injection h with h
+  exact matchFloat_goSyntax s t h
+
+/-- … and every text the integer rule's regex admits has the syntax of
+`strconv.ParseInt(…, 10, 64)` (optional sign, digits). -/
+theorem int_rule_admits_only_go_syntax (s t : Bytes)
+    (h : (parse Gen.tokIntRegex).map (fun r => pmatch r s) = some (some t)) :
+    goIntSyntax t = true := by
+  rw [int_rule_is_regex] at h
+  injection h with h
+  exact matchInt_goSyntax s t h
+
+example : goIntSyntax [0x2D, 0x30, 0x37] = true ∧ goIntSyntax [0x2D] = false ∧ goIntSyntax [0x31, 0x5F, 0x30] = false := by
+  decide
+
+end regex
 
 end Props.C08
